@@ -2,15 +2,15 @@
 // Links liblzma.a of the build under test; contains NO code of src/xz or src/xzdec.
 //
 // Line protocol (one op per line on stdin, one result line on stdout):
-//   dec <tool xz|xzdec|lzmadec> <single 0|1> <ignorecheck 0|1> <format auto|xz|lzma|lzip|raw> <infile> <outfile>
+//   dec <tool xz|xzdec|lzmadec> <single 0|1> <ignorecheck 0|1> <format auto|xz|lzma|lzip|raw> <xz's IO_BUFFER_SIZE> <infile> <outfile>
 //     -> fmt=<xz|lzma|lzip|unknown> init_warn=<k> init_ret=<lzma_ret> warn=<k> ret=<lzma_ret> trailing=<0|1>
 //        allow_trailing=<0|1> out=<bytes written to outfile> in=<file size>
 //
 // tool=xz follows the way the xz tool drives liblzma (documented behaviour of coder_run): the first chunk of at most
-// 8192 bytes decides the format (own re-implementation of the detection rules), the decoder is created with
+// IO_BUFFER_SIZE bytes decides the format (own re-implementation of the detection rules), the decoder is created with
 // LZMA_TELL_UNSUPPORTED_CHECK (or LZMA_IGNORE_CHECK) and LZMA_CONCATENATED (unless --single-stream), the headers are
 // decoded with no output space (LZMA_UNSUPPORTED_CHECK answers are counted as warnings), then the data is decoded
-// through 8192-byte buffers; LZMA_FINISH is used once the input has ended. `ret` is the first return value other
+// through IO_BUFFER_SIZE-byte buffers; LZMA_FINISH is used once the input has ended. `ret` is the first return value other
 // than LZMA_OK / LZMA_UNSUPPORTED_CHECK; the bytes produced up to and including that call are in <outfile>.
 // ret=-1 init_ret=<error> means that the headers already failed (nothing is decoded then).
 // tool=xzdec / lzmadec: lzma_stream_decoder(UINT64_MAX, LZMA_CONCATENATED) / lzma_alone_decoder(UINT64_MAX) through BUFSIZ buffers.
@@ -18,7 +18,8 @@
 #include <lzma.h>
 #include <errno.h>
 
-#define CHUNK 8192
+#define CHUNK_MAX (1u << 22)
+static size_t CHUNK = 8192;      // IO_BUFFER_SIZE of the xz under test (given on the op line)
 
 static size_t read_full(FILE *f, uint8_t *buf, size_t n, bool *eof)
 {
@@ -54,7 +55,7 @@ static bool looks_lzma(const uint8_t *b, size_t n)
 
 static void dec_xz(bool single, bool ignore_check, const char *format, FILE *in, FILE *out, long insize)
 {
-	static uint8_t ibuf[CHUNK], obuf[CHUNK];
+	static uint8_t ibuf[CHUNK_MAX], obuf[CHUNK_MAX];
 	lzma_stream strm = LZMA_STREAM_INIT;
 	bool eof = false;
 	size_t n = read_full(in, ibuf, CHUNK, &eof);
@@ -155,30 +156,30 @@ static void dec_xz(bool single, bool ignore_check, const char *format, FILE *in,
 
 static void dec_xzdec(bool lzmadec, FILE *in, FILE *out, long insize)
 {
-	static uint8_t ibuf[BUFSIZ], obuf[BUFSIZ];
+	static uint8_t ibuf[CHUNK_MAX], obuf[CHUNK_MAX];    // CHUNK plays the role of xzdec's BUFSIZ
 	lzma_stream strm = LZMA_STREAM_INIT;
 	lzma_ret ret = lzmadec ? lzma_alone_decoder(&strm, UINT64_MAX)
 			: lzma_stream_decoder(&strm, UINT64_MAX, LZMA_CONCATENATED);
 	if (ret != LZMA_OK) { printf("fmt=- init_warn=0 init_ret=%d warn=0 ret=-1 trailing=0 allow_trailing=0 out=0 in=%ld\n", (int)ret, insize); return; }
 	strm.avail_in = 0;
 	strm.next_out = obuf;
-	strm.avail_out = BUFSIZ;
+	strm.avail_out = CHUNK;
 	lzma_action action = LZMA_RUN;
 	uint64_t total = 0;
 	bool trailing = false;
 	for (;;) {
 		if (strm.avail_in == 0) {
 			strm.next_in = ibuf;
-			strm.avail_in = fread(ibuf, 1, BUFSIZ, in);
+			strm.avail_in = fread(ibuf, 1, CHUNK, in);
 			if (!lzmadec && feof(in)) action = LZMA_FINISH;
 		}
 		ret = lzma_code(&strm, action);
 		if (strm.avail_out == 0 || ret != LZMA_OK) {
-			size_t k = BUFSIZ - strm.avail_out;
+			size_t k = CHUNK - strm.avail_out;
 			if (fwrite(obuf, 1, k, out) != k) { perror("fwrite"); exit(3); }
 			total += k;
 			strm.next_out = obuf;
-			strm.avail_out = BUFSIZ;
+			strm.avail_out = CHUNK;
 		}
 		if (ret != LZMA_OK) {
 			if (ret == LZMA_STREAM_END) {
@@ -197,9 +198,11 @@ int main(void)
 {
 	hp_line l = {0};
 	while (hp_next(&l)) {
-		if (l.ntok == 7 && !strcmp(l.tok[0], "dec")) {
-			FILE *in = fopen(l.tok[5], "rb");
-			FILE *out = fopen(l.tok[6], "wb");
+		if (l.ntok == 8 && !strcmp(l.tok[0], "dec")) {
+			CHUNK = (size_t)hp_u64(l.tok[5]);
+			if (CHUNK == 0 || CHUNK > CHUNK_MAX) { printf("io-error chunk\n"); continue; }
+			FILE *in = fopen(l.tok[6], "rb");
+			FILE *out = fopen(l.tok[7], "wb");
 			if (!in || !out) { printf("io-error %s\n", strerror(errno)); if (in) fclose(in); if (out) fclose(out); continue; }
 			fseek(in, 0, SEEK_END);
 			long insize = ftell(in);
